@@ -81,6 +81,12 @@ def cpu_ticks(pid):
 
 def proc_snapshot(pid):
     d = {"pid": pid}
+    try:
+        with open("/proc/%d/stat" % pid) as f:
+            st_ = f.read()
+        d["ppid"] = int(st_[st_.rindex(")") + 2:].split()[1])
+    except (OSError, ValueError, IndexError):
+        d["ppid"] = None
     for name in ("cmdline", "syscall", "wchan"):
         try:
             with open("/proc/%d/%s" % (pid, name), "rb") as f:
